@@ -1,4 +1,4 @@
 From Coq Require Import ExtrOcamlBasic.
-From Slock Require Import Engine.Types Engine.Queues Engine.Timers Engine.Engine Engine.Engine2 Engine.Ack.
+From Slock Require Import Engine.Types Engine.Queues Engine.Timers Engine.Engine Engine.Engine2 Engine.Ack Engine.Sched.
 Extraction Language OCaml.
-Extraction "model.ml" astep init_astate step init_db wq_items getl aget make_cmd.
+Extraction "model.ml" sstep init_sstate astep init_astate step init_db wq_items getl aget make_cmd.
